@@ -26,6 +26,8 @@ pub fn prop() -> Prop {
 
 fn run(sh: &mut Shard) {
     let tier = sh.cfg.tier;
+    // the caller releases results the way the repository's own tests do: Object::free_recursive
+    crate::outcome::set_release_with_api(true);
     gcprog::count_ladder(sh, "C04");
     heapmc::explore(sh, &super::c03::bounds(tier), "C04");
     if !sh.running() {
